@@ -1,6 +1,10 @@
 //! ndjson trace writer, sharded by case (each case goes to the currently smallest shard).
 use serde_json::{json, Value};
 use std::fs::File;
+use std::sync::atomic::{AtomicU64, Ordering};
+
+/// Heartbeat for the hang watchdog: bumped on every event.
+pub static HEARTBEAT: AtomicU64 = AtomicU64::new(0);
 use std::io::{BufWriter, Write};
 
 pub struct Tr {
@@ -35,6 +39,7 @@ impl Tr {
         Tr { w, sz: vec![0; n], cur: 0, events: 0, cases: 0, paths, only: None, muted: false, redundant: false, dir: dir.to_string(), held: None, bulk_run: 0, bulk_kept: 0 }
     }
     pub fn ev(&mut self, v: Value) {
+        HEARTBEAT.fetch_add(1, Ordering::Relaxed);
         if self.muted {
             return;
         }
@@ -49,6 +54,8 @@ impl Tr {
         self.events += 1;
     }
     pub fn case(&mut self, id: &str, prop: &str, extra: Value) {
+        HEARTBEAT.fetch_add(1, Ordering::Relaxed);
+        let _ = std::fs::write(format!("{}/current_case", self.dir), id);
         if let Some(o) = &self.only {
             self.muted = o != id;
             if self.muted {
